@@ -258,6 +258,9 @@ pub trait Scenario {
     fn budget(_plan: &Self::Plan) -> u64 {
         1
     }
+    /// Re-execute one unit in eight in worker processes that do NOT start a Python
+    /// interpreter (the state of a plain Rust caller): there, formatting a `PyErr` aborts.
+    const BARE_PASS: bool = false;
     fn rule() -> String;
     fn assumptions() -> Vec<String>;
     fn components() -> serde_json::Value;
